@@ -67,42 +67,23 @@ func (m *Machine) mkStr(parts []strPart) value {
 		if p.kind == 1 && p.num.IsConst() {
 			p = strPart{kind: 0, lit: fmtNum(p.num.k, p.w, p.hex)}
 		}
+		if p.kind == 1 && p.w == 0 && !p.hex && p.num.lo >= 0 && p.num.hi < inf {
+			// %d of a value with a provable digit count renders like the zero-padded form of that width
+			k, lim := 1, int64(10)
+			for p.num.hi >= lim {
+				k++
+				lim *= 10
+			}
+			if k == 1 || p.num.lo >= lim/10 {
+				p.w = k
+			}
+		}
 		if p.kind == 0 {
 			if p.lit == "" {
 				continue
 			}
 			if n := len(out); n > 0 && out[n-1].kind == 0 {
 				out[n-1].lit += p.lit
-				continue
-			}
-		}
-		// adjacent choices: combine when small
-		if p.kind == 2 {
-			if n := len(out); n > 0 && out[n-1].kind == 2 && len(out[n-1].alts)*len(p.alts) <= 512 {
-				var alts []strAlt
-				for _, a := range out[n-1].alts {
-					for _, b := range p.alts {
-						g := m.tb.And(a.g, b.g)
-						if g.IsConst() && g.k == 0 {
-							continue
-						}
-						alts = append(alts, strAlt{g, a.s + b.s})
-					}
-				}
-				c := m.mkChoice(alts)
-				out = out[:n-1]
-				switch c := c.(type) {
-				case string:
-					if c != "" {
-						if k := len(out); k > 0 && out[k-1].kind == 0 {
-							out[k-1].lit += c
-						} else {
-							out = append(out, strPart{kind: 0, lit: c})
-						}
-					}
-				case *SymStr:
-					out = append(out, c.parts...)
-				}
 				continue
 			}
 		}
@@ -688,6 +669,9 @@ func (m *Machine) strEq(a, b value) value {
 			return m.simp(m.tb.Or(ts...))
 		}
 	}
+	if r, ok := m.alignedEq(x, y); ok {
+		return r
+	}
 	if sameShape(x, y) {
 		var ts []*Term
 		for i, p := range x.parts {
@@ -701,6 +685,142 @@ func (m *Machine) strEq(a, b value) value {
 		return m.simp(m.tb.Eq(m.toTerm(r), m.tb.Int(0)))
 	}
 	return m.liftStr([]value{a, b}, func(v []value) value { return v[0].(string) == v[1].(string) })
+}
+
+// partLen: byte length of a part when it is the same for every value
+func (m *Machine) partLen(p strPart) (int, bool) {
+	switch p.kind {
+	case 0:
+		return len(p.lit), true
+	case 1:
+		if m.fixedWidth(p) {
+			return p.w, true
+		}
+	case 2:
+		l := len(p.alts[0].s)
+		for _, a := range p.alts {
+			if len(a.s) != l {
+				return 0, false
+			}
+		}
+		return l, true
+	}
+	return 0, false
+}
+
+// alignedEq: two concatenations whose parts have fixed byte lengths and whose non-literal parts start and end
+// at the same offsets are equal iff they are equal part by part.
+func (m *Machine) alignedEq(x, y *SymStr) (value, bool) {
+	type seg struct {
+		off, n int
+		p      strPart
+	}
+	split := func(s *SymStr) ([]seg, int, bool) {
+		var out []seg
+		off := 0
+		for _, p := range s.parts {
+			n, ok := m.partLen(p)
+			if !ok {
+				return nil, 0, false
+			}
+			out = append(out, seg{off, n, p})
+			off += n
+		}
+		return out, off, true
+	}
+	xs, xl, ok1 := split(x)
+	ys, yl, ok2 := split(y)
+	if !ok1 || !ok2 {
+		return nil, false
+	}
+	if xl != yl {
+		return false, true
+	}
+	// flatten literals into byte maps; symbolic parts must coincide in extent, or face a literal
+	lit := func(ss []seg) map[int]byte {
+		mp := map[int]byte{}
+		for _, s := range ss {
+			if s.p.kind == 0 {
+				for i := 0; i < s.n; i++ {
+					mp[s.off+i] = s.p.lit[i]
+				}
+			}
+		}
+		return mp
+	}
+	xlit, ylit := lit(xs), lit(ys)
+	find := func(ss []seg, off int) *seg {
+		for i := range ss {
+			if ss[i].p.kind != 0 && ss[i].off == off {
+				return &ss[i]
+			}
+		}
+		return nil
+	}
+	var conj []*Term
+	done := map[int]bool{}
+	one := func(a *seg, other []seg, olit map[int]byte) bool {
+		if b := find(other, a.off); b != nil {
+			if b.n != a.n {
+				return false
+			}
+			if done[a.off] {
+				return true
+			}
+			done[a.off] = true
+			sa, sb := &SymStr{parts: []strPart{a.p}}, &SymStr{parts: []strPart{b.p}}
+			var e value
+			if a.p.kind == 1 && b.p.kind == 1 {
+				e = m.simp(m.tb.Eq(a.p.num, b.p.num))
+			} else if a.p.kind == 2 && b.p.kind == 2 {
+				ea, _ := m.altsOf(sa)
+				gb := map[string][]*Term{}
+				eb, _ := m.altsOf(sb)
+				for _, al := range eb {
+					gb[al.s] = append(gb[al.s], al.g)
+				}
+				var ts []*Term
+				for _, al := range ea {
+					if gs, ok := gb[al.s]; ok {
+						ts = append(ts, m.tb.And(al.g, m.tb.Or(gs...)))
+					}
+				}
+				e = m.simp(m.tb.Or(ts...))
+			} else {
+				return false
+			}
+			conj = append(conj, m.toTerm(e))
+			return true
+		}
+		// against literal bytes of the other side
+		bs := make([]byte, a.n)
+		for i := 0; i < a.n; i++ {
+			c, ok := olit[a.off+i]
+			if !ok {
+				return false
+			}
+			bs[i] = c
+		}
+		conj = append(conj, m.strEqConst(&SymStr{parts: []strPart{a.p}}, string(bs)))
+		return true
+	}
+	for i := range xs {
+		if xs[i].p.kind != 0 && !one(&xs[i], ys, ylit) {
+			return nil, false
+		}
+	}
+	for i := range ys {
+		if ys[i].p.kind != 0 && !one(&ys[i], xs, xlit) {
+			return nil, false
+		}
+	}
+	// literal against literal
+	for off, c := range xlit {
+		if d, ok := ylit[off]; ok && c != d {
+			return false, true
+		}
+	}
+	return m.simp(m.tb.And(conj...)), true
 }
 
 func (m *Machine) strBinop(op token.Token, x, y value, in ssa.Instruction) value {
@@ -833,6 +953,18 @@ func (m *Machine) strSlice(s *SymStr, lo, hi int64, in ssa.Instruction) value {
 					}
 					c := m.mkChoice(alts)
 					out = append(out, m.strParts(c)...)
+				case p.kind == 1 && m.fixedWidth(p):
+					// digits a-pos .. b-pos of a zero-padded number are themselves a zero-padded number
+					low := pos + w - b
+					p10 := func(n int64) int64 {
+						r := int64(1)
+						for i := int64(0); i < n; i++ {
+							r *= 10
+						}
+						return r
+					}
+					sub := m.tb.Rem(m.tb.Quo(p.num, m.tb.Int(p10(low))), m.tb.Int(p10(b-a)))
+					out = append(out, strPart{kind: 1, num: sub, w: int(b - a)})
 				default:
 					okAligned = false
 				}
